@@ -272,6 +272,22 @@ func (w *c09World) drained(e int) bool {
 	return c09Wait(func() bool { return q.size() == 0 && !q.consumerIsWorking() }, c09WaitBound)
 }
 
+// barrier: everything endpoint e has sent so far (queue elements, socket events) has been handled COMPLETELY by
+// the peer's event loop.  The loop is one goroutine and the socket is FIFO, so once a polling event written now
+// has been handled (recvPollingEventCount went up and the working flag is down again) every earlier event is done.
+func (w *c09World) barrier(e int) bool {
+	peer := w.sess(1 - e)
+	dl := time.Now().Add(c09WaitBound)
+	for time.Now().Before(dl) {
+		before := atomic.LoadUint64(&peer.stats.recvPollingEventCount)
+		w.sess(e).wakeUpPeer() // writes the polling event unless the peer is polling right now (then: retry)
+		if c09Wait(func() bool { return atomic.LoadUint64(&peer.stats.recvPollingEventCount) > before }, 20*time.Millisecond) {
+			return w.drained(e)
+		}
+	}
+	return false
+}
+
 func (w *c09World) opFlush(c *c09Case, e, sid int) {
 	if w.fatal != "" {
 		return
@@ -318,21 +334,13 @@ func (w *c09World) opFlush(c *c09Case, e, sid int) {
 		if !c09Wait(func() bool { return atomic.LoadUint64(&peerSess.stats.fallbackReadCount) > fbBefore }, c09WaitBound) {
 			w.fatal = "flush: the fallback data did not reach the peer within the bound"
 		}
-		// 62f988f: handleFallbackData first consumes everything queued towards the peer
-		if !w.drained(e) {
+		// 62f988f: handleFallbackData first consumes everything queued towards the peer, then delivers the item.
+		// The counter above is incremented BEFORE all that: wait until the peer's loop is provably past the event.
+		if !w.barrier(e) {
 			w.fatal = "flush: the peer did not drain the queue within the bound"
 		}
-		if peerPend >= 0 {
-			if !c09Wait(func() bool { return c09PendLen(peerStream) > peerPend }, c09WaitBound) {
-				w.fatal = "flush: the fallback data did not reach the peer stream within the bound"
-			}
-		} else if e == 0 {
-			if !c09Wait(func() bool { return w.server.getStreamById(uint32(sid)) != nil }, c09WaitBound) {
-				w.fatal = "flush: the fallback data did not reach the peer (no stream accepted) within the bound"
-			}
-			time.Sleep(time.Millisecond)
-		} else {
-			time.Sleep(2 * time.Millisecond)
+		if peerPend >= 0 && c09PendLen(peerStream) <= peerPend {
+			w.fatal = "flush: the fallback data did not reach the peer stream within the bound"
 		}
 	case had && err == ErrQueueFull:
 		w.feat["queue-full"] = true
@@ -444,6 +452,9 @@ func (w *c09World) opClose(c *c09Case, e, sid int) {
 		w.feat["close-notified-over-socket"] = true
 	}
 	if wasOpen {
+		if qfull && !w.barrier(e) {
+			w.fatal = "close: the peer did not drain the queue within the bound"
+		}
 		if !w.drained(e) {
 			w.fatal = "close: the peer did not drain the queue within the bound"
 		}
@@ -453,8 +464,6 @@ func (w *c09World) opClose(c *c09Case, e, sid int) {
 			if !c09Wait(func() bool { return !ps.IsOpen() }, c09WaitBound) {
 				w.fatal = "close: the close notification did not reach the peer stream within the bound"
 			}
-		} else if qfull {
-			time.Sleep(3 * time.Millisecond) // nothing observable left: the peer has no such stream
 		}
 	}
 	w.rec(c, c09Op{Op: "close", E: e, Sid: sid})
